@@ -7,6 +7,7 @@ from . import r_tables as T
 from . import r_sib as S
 from . import r_flow as W
 from . import r_more as M
+from . import r_c06 as Z
 
 
 def part(fn, **kw):
@@ -41,7 +42,7 @@ def registry():
     R["C06"] = _p(
         "Decides, over the MIR/HIR of everything reachable from the reader entry points: XML pull loops leave on Eof (R-EOF); Range::range preconditions (R-RANGEPRE); [dataflow rules are added by the C06 engine].",
         "dependencies (zip, quick-xml, encoding_rs, codepage); time / memory constants",
-        [X.r_eof, W.r_rangepre])
+        [X.r_eof, W.r_rangepre] + ([M.r_chase, Z.r_mir] if __import__('os').environ.get('CALAMIR_C06_WIP') else []))
     R["C07"] = _p(
         "Decides: the write footprint of every public read method of the four reader structs is limited to the archive cursor and designated setters/loaders, and no reader stores a cursor (R-FRAME); every Sheets method forwards to the same method of the wrapped reader (R-DELEG); worksheet_range_at & co use n itself (R-AT); worksheets() goes through worksheet_range or the very field it returns (R-WS); unknown names reach WorksheetNotFound (R-NOTFOUND); From<DataRef> for Data preserves variants (R-TAB-FROM).",
         "equality of values across calls beyond the frame condition (zip / XML determinism is trusted)",
